@@ -180,6 +180,11 @@ func replayTrack(c *core.Ctx, lfsBin string, b *trackBehaviour, idx int, names [
 			}
 			v := mk(a, "git check-attr disagrees with what was asked for", map[string]interface{}{"should_be_lfs_but_is_not": missing, "is_lfs_but_should_not": extra})
 			v.Fields["cause"] = trackCause(s.A, s.Name, name, missing, extra)
+			if v.Fields["cause"] == "unclassified" && s.A == "trackfile" && i > 0 && len(missing) == 1 && missing[0] == name && len(extra) == 0 &&
+				strings.Contains(r.All(), "already supported") && allChar(s.Name, "bslash") && allChar(b.Steps[i-1].Name, "bslash") && len(b.Steps[i-1].Name) == 2*len(s.Name) {
+				// the name is, character for character, the escaped spelling of the name tracked just before
+				v.Fields["cause"] = "backslashes-taken-for-the-escaped-spelling-of-a-tracked-name"
+			}
 			return v, nil
 		}
 		if others != othersBefore {
@@ -240,6 +245,18 @@ func init() {
 			same := fmt.Sprint(b.Steps[0].Name) == fmt.Sprint(last.Name)
 			if strings.HasSuffix(last.A, "-again") || (same && strings.HasPrefix(last.A, "untrack")) {
 				pre = "*"
+			}
+			// two names of which one begins with the other: a reader that cuts a pattern short confuses them
+			fn, ln := b.Steps[0].Name, last.Name
+			if !same && len(fn) != len(ln) && len(fn) > 0 && len(ln) > 0 {
+				short, long := fn, ln
+				if len(short) > len(long) {
+					short, long = long, short
+				}
+				if fmt.Sprint(long[:len(short)]) == fmt.Sprint(short) {
+					pre = "*"
+					cs = append(cs, "prefix-of:"+strings.Join(long[len(short):], ","))
+				}
 			}
 			k := b.Steps[0].A + "|" + last.A + "|" + pre + "|" + strings.Join(cs, ",")
 			l := append(byClass[k], &b)
@@ -362,6 +379,15 @@ func trackCause(op string, chars []string, name string, missing, extra []string)
 		}
 	}
 	return "unclassified"
+}
+
+func allChar(l []string, x string) bool {
+	for _, c := range l {
+		if c != x {
+			return false
+		}
+	}
+	return len(l) > 0
 }
 
 func fnvStr(s string, seed int64) uint64 {
